@@ -94,6 +94,10 @@ SHORT = {
  'C03e': '`make_hashed_layout`: a mapping whose trigger is the same *set* with the same final key replaces the earlier entry in place (variant of C03: a mapping listed between the two now wins)',
  'C07d': '`newly_release`: after `remove_mapping`, an output key of the removed mapping that is still physically down and not on the output is pressed again (a key lifted by a no-repeat mapping becomes held on a later release)',
  'C18d': '`DevInputWriter::send`: the batch is written in chunks of 15 records, each with its own SYN_REPORT (a batch of 16 or more events carries extra SYN_REPORTs)',
+ 'C06f': '`newly_press`: the mapping that was just hit is moved to the end of its key\'s list in the hashed layout ("most recently used first" for the reverse scan): which chord was typed last survives rest and release_all and changes which mapping a later chord fires',
+ 'C08e': 'two sites: `add_new_mapping` appends the absorbed keys with `extend_from_slice` (duplicates when the chord fires twice), `newly_press` forgets the re-pressed key with `position` + `swap_remove` (one occurrence): after two fires a re-pressed modifier still counts as absorbed',
+ 'C10e': 'per-device loop: the ready devices are served through a helper that orders the tablet switch first and applies `.take(1)` to the whole chain: when one wake-up names both devices the keyboard is not read before the next poll',
+ 'C12e': 'per-device loop, two sites: the repeat outcome of `step` is applied once per wake-up after all devices were served (overwrites the Idle set by the On arm) and the `!in_tablet_mode` guard of the time-out branch removed as dead code: keyboard chunk with a repeating press + On in the same wake-up lets the timer write in tablet mode',
 }
 rows = []
 for s in sorted(os.listdir('/verif/seeded')):
